@@ -86,6 +86,13 @@ SPECIAL = {
     "dangling_symlink": ("crate_a/src/dangling.rs", "symlink", "missing_target.rs"),
     "symlink_loop_dir": ("crate_a/src/loop", "symlink", ".."),
     "dir_named_rs": ("crate_a/src/fake.rs/inner.rs", "file", "#[typeshare]\npub struct Inner { pub a: u32 }\n"),
+    # MC_C07!ConfigSurroundings (the working directory of these runs is crate_a)
+    "config_is_dir": ("crate_a/typeshare.toml", "dir", ""),
+    "config_is_dir_in_parent": ("typeshare.toml", "dir", ""),
+    "config_empty": ("crate_a/typeshare.toml", "file", ""),
+    "config_invalid": ("crate_a/typeshare.toml", "file", "this is [not = toml\n"),
+    "config_symlink_loop": ("crate_a/typeshare.toml", "symlink", "typeshare.toml"),
+    "config_dangling_link": ("crate_a/typeshare.toml", "symlink", "no_such_file.toml"),
 }
 
 
@@ -123,9 +130,11 @@ def run_vector(work, idx, v, trace=True):
         os.makedirs(os.path.dirname(os.path.join(d, rel)), exist_ok=True)
         if kind == "symlink":
             os.symlink(arg, os.path.join(d, rel))
+        elif kind == "dir":
+            os.makedirs(os.path.join(d, rel), exist_ok=True)
         else:
             open(os.path.join(d, rel), "w").write(arg)
-        if v["construct"] != "symlink_loop_dir":      # a directory link is not followed: it is no work item of the walker
+        if v["construct"] != "symlink_loop_dir" and not v["construct"].startswith("config_"):      # a directory link is not followed: it is no work item of the walker
             files = dict(files, **{rel: ""})       # the diagnostic may name this path
     out = os.path.join(d, "out")
     args = ["-l", v["lang"]] + (LANG_ARGS[v["lang"]] if v.get("packages", "given") == "given" else [])
